@@ -1825,7 +1825,7 @@ pub fn parse_mode_atoms(params: &[String]) -> Option<Vec<(bool, char, Option<Str
     Some(out)
 }
 
-fn step_mode_user(m: &M, _cfg: &SpecCfg, me: &str, src: &str, actor: &Actor, p: &[String], mut e: Exp) -> Option<Exp> {
+fn step_mode_user(m: &M, cfg: &SpecCfg, me: &str, src: &str, actor: &Actor, p: &[String], mut e: Exp) -> Option<Exp> {
     let target = p[0].as_str();
     if !valid_nick_syntax(target) {
         return None;
@@ -1901,7 +1901,10 @@ fn step_mode_user(m: &M, _cfg: &SpecCfg, me: &str, src: &str, actor: &Actor, p: 
                 'r' => {
                     if plus {
                         if !u.r {
-                            if actor.info.registered {
+                            // "predefined users": the registered mode belongs to sessions whose USER
+                            // name is a configured user (decided from the configuration, not from the
+                            // connection's own flag)
+                            if cfg.users.iter().any(|x| x.name == u.name) {
                                 u.r = true;
                                 set_s.push('r');
                             } else {
